@@ -205,11 +205,16 @@ def main():
     builds = {}
     blog = plog
     if ok_p:
-        for name, src, extra in [('e0_snd', 'e0/snd.cpp', '-O1'), ('e1_split', 'e1/split.cpp', '-O1')] + \
-                ([('e0_snd_asan', 'e0/snd.cpp', '-O1 -g -fsanitize=address -fno-omit-frame-pointer')] if tr == 'thorough' else []):
-            if not os.path.exists(os.path.join(HERE, 'harness', src)):
-                continue
-            ok_h, hbin, hlog = compile_harness(name, src, 'hooks', extra)
+        # the ASan variant (touch-after-release of an operation state is a heap-use-after-free: the
+        # terminal receiver deletes the operation state inside its completion call) runs in both
+        # tiers; the three compiles run side by side
+        todo = [('e0_snd', 'e0/snd.cpp', '-O1'), ('e1_split', 'e1/split.cpp', '-O1'),
+                ('e0_snd_asan', 'e0/snd.cpp', '-O1 -g -fsanitize=address -fno-omit-frame-pointer')]
+        todo = [t for t in todo if os.path.exists(os.path.join(HERE, 'harness', t[1]))]
+        from concurrent.futures import ThreadPoolExecutor
+        with ThreadPoolExecutor(max_workers=3) as tp:
+            done = list(tp.map(lambda t: (t[0],) + tuple(compile_harness(t[0], t[1], 'hooks', t[2])), todo))
+        for name, ok_h, hbin, hlog in done:
             if not ok_h:
                 ok_p = False
                 blog = hlog
@@ -256,7 +261,8 @@ def main():
             res = run_e1(builds['e0_snd'], 'snd', e0c, jobs=6, tag=PROP + tag + 'e0')
             out += [(classify_e0(r), c, r, 'E0-pool' if '(p' in c.split('\n')[0] else 'E0') for c, r in zip(e0c, res)]
             if 'e0_snd_asan' in builds:
-                sub = e0c[:4000]
+                # not the pool cases: exceptions thrown on pika's task stacks confuse ASan (false reports)
+                sub = [c for c in e0c if '(p' not in c.split('\n')[0]][:4000 if tr == 'thorough' else 600]
                 res = run_e1(builds['e0_snd_asan'], 'snd', sub, jobs=6, tag=PROP + tag + 'asan')
                 out += [(classify_e0(r), c, r, 'E0-asan') for c, r in zip(sub, res)]
         if e1c and 'e1_split' in builds:
